@@ -14,7 +14,7 @@ from __future__ import annotations
 
 import ast
 
-from .loader import AnalysisError, norm
+from .loader import AnalysisError, norm, walk_no_nested
 
 
 class Unsupported(AnalysisError):
@@ -176,6 +176,16 @@ class Interp:
                 return l - r
             if isinstance(e.op, ast.Mult):
                 return l * r
+            if isinstance(e.op, ast.Div):
+                return l / r
+            if isinstance(e.op, ast.FloorDiv):
+                return l // r
+            if isinstance(e.op, ast.Mod) and isinstance(l, int):
+                return l % r
+            if isinstance(e.op, ast.BitAnd):
+                return l & r
+            if isinstance(e.op, ast.BitOr):
+                return l | r
             if isinstance(e.op, ast.Pow) and isinstance(l, int) and isinstance(r, int) and 0 <= r <= 64:
                 return l ** r
             raise Unsupported("binary operator")
@@ -242,6 +252,10 @@ class Interp:
             return "<str>"
         if isinstance(e, ast.Call):
             return self.call(e, env)
+        if isinstance(e, ast.Yield):
+            # a generator is run eagerly: what it yields is collected (call_function returns the list)
+            env.setdefault("@yields", []).append(self.ev(e.value, env) if e.value is not None else None)
+            return None
         raise Unsupported(f"expression {type(e).__name__}")
 
     @staticmethod
@@ -453,11 +467,14 @@ class Interp:
         if missing:
             raise Unsupported(f"parameters {missing} of {fn.name} not bound")
         body = fn.body
+        is_gen = any(isinstance(x, (ast.Yield, ast.YieldFrom)) for x in walk_no_nested(fn))
+        if is_gen:
+            env["@yields"] = []
         try:
             self.run(body, env)
         except _Return as r:
-            return r.value
-        return None
+            return env["@yields"] if is_gen else r.value
+        return env["@yields"] if is_gen else None
 
 
 def _load(t):
